@@ -143,7 +143,14 @@ def verifyBitwise (c : CrcConfig) (bits : Bits) (expected : Int) : Bool :=
 def verifyTable (c : CrcConfig) (le : Bool) (bits : Bits) (expected : Int) : Except CrcErr Bool :=
   (calcTable c le bits).map (fun r => (bitsToNat r : Int) == expected)
 
-/-! ### front ends (parameterised by configuration, table and mask value) -/
+/-! ### front ends (parameterised by the calculator singleton `CALC` and the mask value) -/
+
+/-- `CALC.calculate_checksum` of a front-end class: endianness flag of the container, bits -/
+abbrev Calc := Bool → Bits → Except CrcErr Bits
+
+/-- a `BitCrcCalculator(configuration, table_based)` with its (pre-built) lookup table -/
+def calculator (c : CrcConfig) (tableBased : Bool) (tbl : List Bits) : Calc :=
+  fun le bits => if tableBased then calcTableWith c tbl le bits else .ok (calcBitwise c bits)
 
 /-- bitarray `~` -/
 def inv (bs : Bits) : Bits := bs.map not
@@ -157,24 +164,24 @@ def byteswap : Bytes → Bytes
   | l => l
 
 /-- `CRC8.calculate(data)`; `le` is the endianness of the bitarray that is passed in -/
-def crc8With (c : CrcConfig) (tbl : List Bits) (le : Bool) (data : Bits) : Except CrcErr Nat :=
-  (calcTableWith c tbl le data).map bitsToNat
+def crc8With (cal : Calc) (le : Bool) (data : Bits) : Except CrcErr Nat :=
+  (cal le data).map bitsToNat
 
 /-- `CRC8.check(data, crc8)` -/
-def crc8CheckWith (c : CrcConfig) (tbl : List Bits) (le : Bool) (data : Bits) (crc : Int) :
+def crc8CheckWith (cal : Calc) (le : Bool) (data : Bits) (crc : Int) :
     Except CrcErr Bool :=
   if crc < 0 ∨ 255 < crc then .error .assertionError
-  else (crc8With c tbl le data).map (fun v => (v : Int) == crc)
+  else (crc8With cal le data).map (fun v => (v : Int) == crc)
 
 /-- `CRC16.calculate(data, mask)` = `ba2int(~checksum(bytes_to_bits(data))) ^ mask.value` -/
-def crc16With (c : CrcConfig) (tbl : List Bits) (data : Bytes) (mask : Nat) : Except CrcErr Nat :=
-  (calcTableWith c tbl false (bytesToBits data)).map (fun r => Nat.xor (bitsToNat (inv r)) mask)
+def crc16With (cal : Calc) (data : Bytes) (mask : Nat) : Except CrcErr Nat :=
+  (cal false (bytesToBits data)).map (fun r => Nat.xor (bitsToNat (inv r)) mask)
 
 /-- `CRC16.check(data, crc16, mask)` -/
-def crc16CheckWith (c : CrcConfig) (tbl : List Bits) (data : Bytes) (crc : Int) (mask : Nat) :
+def crc16CheckWith (cal : Calc) (data : Bytes) (crc : Int) (mask : Nat) :
     Except CrcErr Bool :=
   if crc < 0 ∨ 65535 < crc then .error .assertionError
-  else (crc16With c tbl data mask).map (fun v => (v : Int) == crc)
+  else (crc16With cal data mask).map (fun v => (v : Int) == crc)
 
 /-- the `crc32` argument of `CRC9.calculate_from_parts` -/
 inductive Crc32Arg where
@@ -201,30 +208,30 @@ def crc9Source (data : Bytes) (serial : Int) (crc32 : Crc32Arg) : Except CrcErr 
   else pure (src ++ natToBits 7 serial.toNat)
 
 /-- `CRC9.calculate(data, mask)` -/
-def crc9BitsWith (c : CrcConfig) (tbl : List Bits) (le : Bool) (src : Bits) (mask : Nat) :
+def crc9BitsWith (cal : Calc) (le : Bool) (src : Bits) (mask : Nat) :
     Except CrcErr Nat :=
-  (calcTableWith c tbl le src).map (fun r => Nat.xor (bitsToNat (inv r)) mask)
+  (cal le src).map (fun r => Nat.xor (bitsToNat (inv r)) mask)
 
 /-- `CRC9.calculate_from_parts(data, serial_number, mask, crc32)` -/
-def crc9With (c : CrcConfig) (tbl : List Bits) (data : Bytes) (serial : Int) (mask : Nat)
+def crc9With (cal : Calc) (data : Bytes) (serial : Int) (mask : Nat)
     (crc32 : Crc32Arg) : Except CrcErr Nat := do
   let src ← crc9Source data serial crc32
-  crc9BitsWith c tbl false src mask
+  crc9BitsWith cal false src mask
 
 /-- `CRC9.check(data, serial_number, crc9, mask, crc32)` -/
-def crc9CheckWith (c : CrcConfig) (tbl : List Bits) (data : Bytes) (serial : Int) (crc : Int)
+def crc9CheckWith (cal : Calc) (data : Bytes) (serial : Int) (crc : Int)
     (mask : Nat) (crc32 : Crc32Arg) : Except CrcErr Bool :=
   if 511 < crc then .error .assertionError
-  else (crc9With c tbl data serial mask crc32).map (fun v => (v : Int) == crc)
+  else (crc9With cal data serial mask crc32).map (fun v => (v : Int) == crc)
 
 /-- `CRC32.calculate(data)` = `ba2int(checksum(bytes_to_bits(byteswap_bytes(data), "little")))` -/
-def crc32With (c : CrcConfig) (tbl : List Bits) (data : Bytes) : Except CrcErr Nat :=
-  (calcTableWith c tbl true (bytesToBitsLE (byteswap data))).map bitsToNat
+def crc32With (cal : Calc) (data : Bytes) : Except CrcErr Nat :=
+  (cal true (bytesToBitsLE (byteswap data))).map bitsToNat
 
 /-- `CRC32.check(data, crc32)` -/
-def crc32CheckWith (c : CrcConfig) (tbl : List Bits) (data : Bytes) (crc : Int) : Except CrcErr Bool :=
+def crc32CheckWith (cal : Calc) (data : Bytes) (crc : Int) : Except CrcErr Bool :=
   if crc < 0 ∨ 4294967295 < crc then .error .assertionError
-  else (crc32With c tbl data).map (fun v => (v : Int) == crc)
+  else (crc32With cal data).map (fun v => (v : Int) == crc)
 
 end Crc
 end Dmr
